@@ -7,6 +7,10 @@ CONSTANTS
   MaxPw = 2
   StrayLevel = 1
   JunkOn = TRUE
+  Rich = FALSE
+  PwOn = TRUE
+  RichSel <- NoRich
+  Script <- NoScript
   EmitMod = 0
 INIT MCInit
 NEXT MCNext
